@@ -152,7 +152,7 @@ func (d *Driver) judgeC03as(prop string) {
 						}
 						d.h.violate(prop, "still-leader-after-next-heartbeat/record-"+cause+"/"+errClass(a1.SrvErr),
 							fmt.Sprintf("i%d.%d: its record was %s at %v; its next heartbeat attempt (#%d) got the verdict %q at %v, but it stopped claiming leadership %s", t.Inst, t.Gen, cause, tL, a1.ID, errStr(a1.SrvErr), a1.TRet, when), deadline, a1.SRet)
-					} else if cb := d.demoteCbAfter(t.Inst, t.Gen, t.SEnd); d.expectsOnDemote(t.Inst, t.Gen, t.SEnd) && (cb == nil || cb.T > deadline+slack+d.stallIn(t.Inst, deadline, cb.T)) {
+					} else if cb := d.demoteCbAfter(t.Inst, t.Gen, t.SEnd); !stopStack(t.EndStack) && d.expectsOnDemote(t.Inst, t.Gen, t.SEnd) && (cb == nil || cb.T > deadline+slack+d.stallIn(t.Inst, deadline, cb.T)) {
 						d.h.violate(prop, "ondemote-late-after-record-loss/record-"+cause, fmt.Sprintf("i%d.%d lost its record at %v, claim cleared at %v, OnDemote not run by %v", t.Inst, t.Gen, tL, fallT, deadline), deadline, a1.SRet)
 					}
 					base := tL
@@ -205,7 +205,9 @@ func (d *Driver) judgeC03as(prop string) {
 					}
 					d.h.violate(prop, "still-leader-after-third-failed-heartbeat/"+faultClass(op),
 						fmt.Sprintf("i%d.%d: three consecutive refreshes failed (third, #%d, completed at %v) but it stopped claiming leadership %s", t.Inst, t.Gen, op.ID, f3, when), f3, op.SRet)
-				} else if cb := d.demoteCbAfter(t.Inst, t.Gen, t.SEnd); d.expectsOnDemote(t.Inst, t.Gen, t.SEnd) && (cb == nil || cb.T > f3+slack+d.stallIn(t.Inst, f3, cb.T)) {
+				} else if cb := d.demoteCbAfter(t.Inst, t.Gen, t.SEnd); !stopStack(t.EndStack) && d.expectsOnDemote(t.Inst, t.Gen, t.SEnd) && (cb == nil || cb.T > f3+slack+d.stallIn(t.Inst, f3, cb.T)) {
+					// (a falling edge made by a stop call that overtook the stalled heartbeat goroutine:
+					// when that call runs OnDemote is C09's business)
 					d.h.violate(prop, "ondemote-late-after-third-failed-heartbeat", fmt.Sprintf("i%d.%d OnDemote not run by %v", t.Inst, t.Gen, f3), f3, op.SRet)
 				}
 				// S: start of the last successful refresh; for a term without one, the start of the term
